@@ -366,7 +366,7 @@ def cases():
     nrand = 6 if tier == 'quick' else 300
     for r in range(nrand):
         nd = rnd.choice([2, 3])
-        m = families.random_mesh(rnd, nd, max_levels=2 if tier == 'quick' else 3)
+        m = families.random_mesh(rnd, nd, max_levels=2 if tier == 'quick' else 3, max_boxes=4 if tier == 'quick' else 6, max_extent=6 if tier == 'quick' else 8)
         m.name = 'rand%d-%dd' % (r, nd)
         out.append({'label': m.name, 'mesh': m, 'fields': rnd.choice(fsets), 'layout': families.scatter_layouts(m, rnd, 3),
                     'geom': rnd.randrange(3)})
